@@ -127,6 +127,20 @@ theorem lift_pullback (k : Matrix (Fin 2) (Fin 2) ℝ) (hk : k.det = -1) :
   fin_cases i <;> fin_cases j <;>
     simp [lift, S6c, DriftSympl.S3, Matrix.mul_apply, Fin.sum_univ_succ] <;> linarith
 
+theorem S6c_sq : S6c * S6c = -1 := by
+  ext i j
+  fin_cases i <;> fin_cases j <;> simp [S6c, Matrix.mul_apply, Fin.sum_univ_succ]
+
+/-- such a change of coordinates is invertible -/
+theorem lift_isUnit (k : Matrix (Fin 2) (Fin 2) ℝ) (hk : k.det = -1) : IsUnit (lift k).det := by
+  have h := congrArg Matrix.det (lift_pullback k hk)
+  rw [Matrix.det_mul, Matrix.det_mul, Matrix.det_transpose] at h
+  have h6 : S6c.det * S6c.det = 1 := by
+    rw [← Matrix.det_mul, S6c_sq, Matrix.det_neg, Matrix.det_one]; norm_num
+  have hne : S6c.det ≠ 0 := fun e => by rw [e] at h6; norm_num at h6
+  refine isUnit_iff_ne_zero.mpr (fun e => hne ?_)
+  rw [← h, e]; ring
+
 /-- **a map that is canonical in Bmad coordinates is `S₆`-symplectic in Cheetah coordinates**: for coordinate-change
 Jacobians `K₁` (at the entrance) and `K₂` (at the exit) that pull `S₃` back to `S₆`, and an `S₃`-symplectic `J`, the
 chain-rule product `K₂⁻¹ J K₁` preserves `S₆` -/
